@@ -20,6 +20,8 @@ val existsb : ('a1 -> bool) -> 'a1 list -> bool
 
 val forallb : ('a1 -> bool) -> 'a1 list -> bool
 
+val filter : ('a1 -> bool) -> 'a1 list -> 'a1 list
+
 val firstn : nat -> 'a1 list -> 'a1 list
 
 val skipn : nat -> 'a1 list -> 'a1 list
